@@ -78,10 +78,10 @@ Lemma step_deletes_unreferenced_p : forall s x l c,
 Proof.
   intros s x l c Hvis Hre Hti Henv Hf Hd.
   destruct x as [id fr ext c0 | m ids fr ext src | ids a | ids rel | members z c0 | ids | | ids | ids | l' c'];
-    unfold step in Hd |- *; simpl in Hre, Hti, Henv.
+    unfold step, step_v in Hd |- *; simpl in Hre, Hti, Henv.
   - (* Put *)
     destruct fr as [p| |]; [| simpl in Hd; rewrite Hf in Hd; discriminate | simpl in Hd; rewrite Hf in Hd; discriminate].
-    destruct (abs_after_decode p); [simpl in Hd; rewrite Hf in Hd; discriminate|].
+    destruct (refuse_location true p); [simpl in Hd; rewrite Hf in Hd; discriminate|].
     destruct (held_any s [id]); [simpl in Hd; rewrite Hf in Hd; discriminate|].
     rewrite Hti in Hd. cbn [fst fs add_recs with_fs] in Hd.
     destruct (lkey_eqb (target_loc p ext) l) eqn:E.
@@ -89,8 +89,8 @@ Proof.
     + rewrite (fget_fset_other _ _ _ _ E) in Hd. rewrite Hf in Hd. discriminate.
   - (* Ingest *)
     destruct fr as [p| |]; [| simpl in Hd; rewrite Hf in Hd; discriminate | simpl in Hd; rewrite Hf in Hd; discriminate].
-    destruct (abs_after_decode p); [simpl in Hd; rewrite Hf in Hd; discriminate|].
     destruct (fget (fs s) src) as [cs|] eqn:Es; [| simpl in Hd; rewrite Hf in Hd; discriminate].
+    destruct (refuse_location true p); [simpl in Hd; rewrite Hf in Hd; discriminate|].
     rewrite Hre in Hd. cbn [fst fs add_recs with_fs] in Hd.
     destruct (lkey_eqb (target_loc p ext) l) eqn:E.
     + apply lkey_eqb_eq in E. subst l. rewrite fget_fset_same in Hd. discriminate.
@@ -140,14 +140,14 @@ Lemma step_outside_frame_p : forall s x l,
 Proof.
   intros s x l Hri Hti Hl Henv.
   destruct x as [id fr ext c0 | m ids fr ext src | ids a | ids rel | members z c0 | ids | | ids | ids | l' c'];
-    unfold step; simpl in Hti, Henv.
+    unfold step, step_v; simpl in Hti, Henv.
   - destruct fr as [p| |]; [| reflexivity | reflexivity].
-    destruct (abs_after_decode p); [reflexivity|].
+    destruct (refuse_location true p); [reflexivity|].
     destruct (held_any s [id]); [reflexivity|]. rewrite Hti. simpl.
     apply fget_fset_other. apply inside_differ; assumption.
   - destruct fr as [p| |]; [| reflexivity | reflexivity].
-    destruct (abs_after_decode p); [reflexivity|].
     destruct (fget (fs s) src) as [cs|] eqn:Es; [|reflexivity].
+    destruct (refuse_location true p); [reflexivity|].
     assert (E : lkey_eqb (target_loc p ext) l = false) by (apply inside_differ; assumption).
     destruct (held_any s ids) eqn:Hh; cbn [fst fs add_recs with_fs].
     + apply fget_fdel_other. exact E.
